@@ -1,39 +1,56 @@
-import Sm9.Proofs.GroupBasic
+import Sm9.Proofs.JacobianInst
 /-!
 # C15 — Point equality, normalisation and affine conversion respect the group element
-First landing: `==` is reflexive on every value, every z = 0 value is the identity for
-`==`, `is_zero` is exactly z = 0, normalisation leaves the identity untouched and
-conversion to affine fails exactly for z = 0.
+`==` holds exactly when the two values denote the same point of the curve (generic over
+the field; and for the model's G1): hence an equivalence relation, invariant under
+rescaling, separating P from −P and from the identity, with every z = 0 value the
+identity.  `to_affine` is `None` exactly for z = 0 and otherwise (x/z², y/z³) — the z = 1
+shortcut and the inversion path agree; `normalize` keeps the point, yields z = 1 and
+leaves the identity untouched.
 -/
 namespace Sm9.C15
+open Jac
 
+theorem eq_iff_same_point {F : Type} [Field F] [DecidableEq F] (b : F) (P Q : G F) (hP : Valid b P) (hQ : Valid b Q) :
+    @G.eq F (feOfField F) P Q = true ↔ toAff b P = toAff b Q := eq_iff b P Q hP hQ
+theorem g1_eq_iff (P Q : G1) (hP : G1.Valid P) (hQ : G1.Valid Q) : P.eq Q = true ↔ G1.toAff P = G1.toAff Q :=
+  G1.eq_iff P Q hP hQ
+theorem g1_eq_symm (P Q : G1) (hP : G1.Valid P) (hQ : G1.Valid Q) : P.eq Q = true ↔ Q.eq P = true := by
+  rw [G1.eq_iff P Q hP hQ, G1.eq_iff Q P hQ hP, eq_comm]
+theorem g1_eq_trans (P Q R : G1) (hP : G1.Valid P) (hQ : G1.Valid Q) (hR : G1.Valid R)
+    (h1 : P.eq Q = true) (h2 : Q.eq R = true) : P.eq R = true := by
+  rw [G1.eq_iff _ _ hP hQ] at h1; rw [G1.eq_iff _ _ hQ hR] at h2
+  rw [G1.eq_iff _ _ hP hR, h1, h2]
 theorem g1_eq_refl (p : G1) : p.eq p = true := G1.eq_refl p
 theorem g2_eq_refl (p : G2) : p.eq p = true := G2.eq_refl p
+/-- P and −P are different unless P is the identity (no 2-torsion) -/
+theorem g1_ne_neg (P : G1) (hP : G1.Valid P) (hz : P.z ≠ 0) : P.eq P.neg = false := by
+  cases h : P.eq P.neg
+  · rfl
+  · exfalso
+    rw [G1.eq_iff P P.neg hP (G1.neg_valid P hP), G1.neg_correct P hP] at h
+    have hn := hP.resolve_left hz
+    rw [G1.toAff_some P hz hn, WeierstrassCurve.Affine.Point.neg_some] at h
+    simp only [WeierstrassCurve.Affine.negY, Jac.Wb, zero_mul, sub_zero] at h
+    have h := (WeierstrassCurve.Affine.Point.some.inj h).2
+    have hy : P.y ≠ 0 := Jac.y_ne_zero b1 Fq.no_two_torsion P hz hn
+    have h2 : (2 : Fq) * (P.y / P.z ^ 3) = 0 := by
+      calc (2 : Fq) * (P.y / P.z ^ 3) = P.y / P.z ^ 3 + P.y / P.z ^ 3 := by ring
+        _ = P.y / P.z ^ 3 + -(P.y / P.z ^ 3) := by rw [← h]
+        _ = 0 := by ring
+    rcases mul_eq_zero.mp h2 with h' | h'
+    · exact Fq.two_ne_zero h'
+    · rw [div_eq_zero_iff] at h'
+      rcases h' with h' | h'
+      · exact hy h'
+      · exact hz (pow_eq_zero_iff (by norm_num) |>.mp h')
 theorem g1_eq_identity_iff (p o : G1) (ho : o.z = 0) : p.eq o = true ↔ p.z = 0 := G1.eq_zero_iff p o ho
 theorem g1_is_zero_iff (p : G1) : p.is_zero = true ↔ p.z = 0 := G1.is_zero_iff p
 theorem g2_is_zero_iff (p : G2) : p.is_zero = true ↔ p.z = 0 := G2.is_zero_iff p
-theorem g1_to_affine_none_iff (p : G1) : p.to_affine = none ↔ p.z = 0 := by
-  constructor
-  · intro h
-    unfold G.to_affine at h
-    by_cases hz : FieldElement.is_zero p.z = true
-    · exact (Fq.is_zero_iff p.z).1 hz
-    · have hz' : FieldElement.is_zero p.z = false := by simpa using hz
-      simp only [hz', Bool.false_eq_true, if_false] at h
-      split at h
-      · cases h
-      · -- inverse of a non-zero element exists
-        have hne : p.z ≠ 0 := fun h0 => hz ((Fq.is_zero_iff p.z).2 h0)
-        have : FieldElement.inverse p.z = Fq.inverse p.z := rfl
-        rw [this] at h
-        unfold Fq.inverse at h
-        have hz2 : Fq.is_zero p.z = false := hz'
-        simp [hz2] at h
-  · exact G1.to_affine_none_of_z p
-theorem normalize_identity (p : G1) (h : p.z = 0) : Api.normalize p = p :=
-  normalize_of_none p (G1.to_affine_none_of_z p h)
-/-- a normalised point has z = 1 -/
-theorem normalize_z (p : G1) (a : AffineG1) (h : p.to_affine = some a) : (Api.normalize p).z = 1 := by
-  unfold Api.normalize; rw [h]; rfl
+theorem g1_to_affine_spec (P : G1) :
+    P.to_affine = if P.z = 0 then none else some ⟨P.x / P.z ^ 2, P.y / P.z ^ 3⟩ := G1.to_affine_spec P
+theorem g1_normalize_spec (P : G1) (hP : G1.Valid P) :
+    G1.toAff (Api.normalize P) = G1.toAff P ∧ (P.z ≠ 0 → (Api.normalize P).z = 1) ∧
+    (P.z = 0 → Api.normalize P = P) ∧ G1.Valid (Api.normalize P) := G1.normalize_spec P hP
 
 end Sm9.C15
